@@ -9,3 +9,7 @@ open TruthModel.C15
 #print axioms mission_line_roundtrip
 #print axioms unencodable_or_oversize_is_error
 #print axioms cstring_block_roundtrip_partial
+#print axioms readCStringBlockwise_padded
+#print axioms nullPad_shape
+#print axioms cstring_block_roundtrip
+#print axioms cstring_nul_truncates
